@@ -169,3 +169,13 @@ func init() {
 	mutant("enc-int-no-zero-continuation", "enc-int-boundary", "hpack.go", "	for ; index >= 128; index >>= 7 {\n		dst = append(dst, 128|byte(index&127))\n	}\n\n	return append(dst, byte(index))", "	for ; index >= 128; index >>= 7 {\n		dst = append(dst, 128|byte(index&127))\n	}\n\n	if index != 0 {\n		dst = append(dst, byte(index))\n	}\n\n	return dst")
 	mutant("dec-int-cursor-off", "dec-int-overflow", "hpack.go", "			return b[i+1:], nn + uint64(b0), nil", "			return b[i:], nn + uint64(b0), nil")
 }
+
+func init() {
+	mutant("huff-tail-bitsleft-stale", "huffman-bit-roles", "huffman.go", "		bits -= root.codeLen\n		root = rootHuffmanNode\n		bitsLeft = bits\n	}\n\n	if bitsLeft > 7 {", "		bits -= root.codeLen\n		root = rootHuffmanNode\n	}\n\n	if bitsLeft > 7 {")
+	mutant("huff-tail-stop-weak", "huffman-bit-roles", "huffman.go", "if root.sub != nil || root.codeLen > bits {", "if root.sub != nil {")
+	mutant("huff-table-fill-short", "huffman-bit-roles", "huffman.go", "for i := start; i < start+end; i++ {", "for i := start; i < start+end-1; i++ {")
+}
+
+func init() {
+	mutant("settings-marker-conditional", "settings-codec-table", "settings.go", "			st.windowSize = value\n			st.hasWindowSize = true", "			if value != st.windowSize {\n				st.windowSize = value\n				st.hasWindowSize = true\n			}")
+}
